@@ -502,8 +502,11 @@ func structMembers(s StructDecl, forSource bool, nested bool) []member {
 
 // UserFuncs accumulates generated converter and hook declarations (home/funcs.go).
 type UserFuncs struct {
-	sb strings.Builder
-	n  int
+	sb    strings.Builder
+	setup strings.Builder // declarations that live in the setup file itself (carried over into the output)
+	// ToSetup: the next declaration goes into the setup file instead of home/funcs.go
+	ToSetup bool
+	n       int
 	// RetVars lists the package-level variables that hold the results of generated converters; the
 	// behavioural driver fills them with random values.
 	RetVars []string
@@ -519,11 +522,15 @@ func (u *UserFuncs) Converter(argType, retType string, retErr, ptrArg bool) stri
 	if ptrArg {
 		at = "*" + argType
 	}
-	fmt.Fprintf(&u.sb, "var %s %s\n\n", rv, retType)
+	out := &u.sb
+	if u.ToSetup {
+		out = &u.setup
+	}
+	fmt.Fprintf(out, "var %s %s\n\n", rv, retType)
 	if retErr {
-		fmt.Fprintf(&u.sb, "func %s(x %s) (%s, error) { tr.Arg(%q, x); err := tr.HitE(%q); return %s, err }\n\n", name, at, retType, name, name, rv)
+		fmt.Fprintf(out, "func %s(x %s) (%s, error) { tr.Arg(%q, x); err := tr.HitE(%q); return %s, err }\n\n", name, at, retType, name, name, rv)
 	} else {
-		fmt.Fprintf(&u.sb, "func %s(x %s) %s { tr.Arg(%q, x); tr.Hit(%q); return %s }\n\n", name, at, retType, name, name, rv)
+		fmt.Fprintf(out, "func %s(x %s) %s { tr.Arg(%q, x); tr.Hit(%q); return %s }\n\n", name, at, retType, name, name, rv)
 	}
 	return name
 }
@@ -546,15 +553,22 @@ func (u *UserFuncs) Hook(kind string, dstType string, dstPtr bool, srcType strin
 		fmt.Fprintf(&ps, ", e%d %s", i, e.Type)
 		fmt.Fprintf(&as, ", e%d", i)
 	}
+	out := &u.sb
+	if u.ToSetup {
+		out = &u.setup
+	}
 	if retErr {
-		fmt.Fprintf(&u.sb, "func %s(%s) error { tr.Arg(%q, %s); return tr.HitE(%q) }\n\n", name, ps.String(), name, as.String(), name)
+		fmt.Fprintf(out, "func %s(%s) error { tr.Arg(%q, %s); return tr.HitE(%q) }\n\n", name, ps.String(), name, as.String(), name)
 	} else {
-		fmt.Fprintf(&u.sb, "func %s(%s) { tr.Arg(%q, %s); tr.Hit(%q) }\n\n", name, ps.String(), name, as.String(), name)
+		fmt.Fprintf(out, "func %s(%s) { tr.Arg(%q, %s); tr.Hit(%q) }\n\n", name, ps.String(), name, as.String(), name)
 	}
 	return name
 }
 
 func (u *UserFuncs) String() string { return u.sb.String() }
+
+// Setup returns the declarations meant for the setup file.
+func (u *UserFuncs) Setup() string { return u.setup.String() }
 
 // GenNotations adds explicit notations that are well-formed for the struct pair.
 func GenNotations(t *rapid.T, m *Method, src, dst StructDecl, uf *UserFuncs, pf Profile) {
@@ -623,6 +637,7 @@ func GenNotations(t *rapid.T, m *Method, src, dst StructDecl, uf *UserFuncs, pf 
 				retErr = rapid.IntRange(0, 3).Draw(t, "cerrHeavy") != 0
 			}
 			ptrArg := !strings.HasPrefix(s.Home, "*") && !strings.HasSuffix(s.Path, "()") && rapid.IntRange(0, 5).Draw(t, "cptr") == 0
+			uf.ToSetup = rapid.IntRange(0, 2).Draw(t, "convInSetup") == 0
 			name := uf.Converter(s.Home, d.Home, retErr, ptrArg)
 			if s.Path == d.Path && rapid.Bool().Draw(t, "omitDst") {
 				m.Notes = append(m.Notes, Notation{"conv", []string{name, s.Path}})
@@ -715,6 +730,7 @@ func GenProg(t *rapid.T, pf Profile) *Prog {
 						ex = m.Extras
 					}
 					_ = eff
+					uf.ToSetup = rapid.IntRange(0, 2).Draw(t, "hookInSetup") == 0
 					name := uf.Hook(kind[:3], m.DstType, dptr, m.SrcType, sptr, ex, herr)
 					m.Notes = append(m.Notes, Notation{kind, []string{name}})
 				}
@@ -747,7 +763,62 @@ func GenProg(t *rapid.T, pf Profile) *Prog {
 		}
 		p.Ifaces = append(p.Ifaces, it)
 	}
+	// :conv whose converter is another function being generated in the same run (C06): the caller's
+	// structs get a member of the callee's operand types
+	if pf.Notations && rapid.IntRange(0, 2).Draw(t, "convToGenerated") == 0 {
+		structIdx := map[string]int{}
+		for i, sd := range p.Structs {
+			structIdx[sd.homeRef()] = i
+		}
+		var callees, callers []*Method
+		for ii := range p.Ifaces {
+			for mi := range p.Ifaces[ii].Methods {
+				m := &p.Ifaces[ii].Methods[mi]
+				eff := EffectiveOpts(p.Ifaces[ii].Opts, m.Opts)
+				if eff.Style == "return" && m.Recv == "" && !m.Reverse && len(m.Extras) == 0 {
+					callees = append(callees, m)
+				}
+				si, ok1 := structIdx[m.SrcType]
+				di, ok2 := structIdx[m.DstType]
+				if ok1 && ok2 && p.Structs[si].Pkg == "home" && p.Structs[di].Pkg == "home" {
+					callers = append(callers, m)
+				}
+			}
+		}
+		if len(callees) > 0 && len(callers) > 0 {
+			callee := rapid.SampledFrom(callees).Draw(t, "callee")
+			caller := rapid.SampledFrom(callers).Draw(t, "caller")
+			if callee != caller {
+				st, dt := callee.SrcType, callee.DstType
+				if callee.SrcPtr {
+					st = "*" + st
+				}
+				if callee.DstPtr {
+					dt = "*" + dt
+				}
+				fs, fd := caller.SrcType, caller.DstType
+				if caller.Reverse {
+					fs, fd = fd, fs
+				}
+				si, di := structIdx[fs], structIdx[fd]
+				has := func(sd StructDecl, n string) bool {
+					for _, f := range sd.Fields {
+						if f.Name == n {
+							return true
+						}
+					}
+					return false
+				}
+				if !has(p.Structs[si], "SubConv") && !has(p.Structs[di], "SubConv") {
+					p.Structs[si].Fields = append(p.Structs[si].Fields, Field{Name: "SubConv", Home: st, Kind: "generated-operand"})
+					p.Structs[di].Fields = append(p.Structs[di].Fields, Field{Name: "SubConv", Home: dt, Kind: "generated-operand"})
+					caller.Notes = append(caller.Notes, Notation{"conv", []string{callee.Name, "SubConv"}})
+				}
+			}
+		}
+	}
 	p.HomeFuncs = uf.String()
+	p.SetupFuncs += uf.Setup()
 	p.FixImports()
 	return p
 }
